@@ -16,6 +16,7 @@ import Nuts.Driver.Modes
 import Nuts.Driver.Fuzz
 import Nuts.Driver.Sparse
 import Nuts.Driver.BPT
+import Nuts.Driver.ZSetDS
 open Nuts Nuts.Driver
 
 inductive SuiteSt where
@@ -27,6 +28,7 @@ inductive SuiteSt where
   | fuzz
   | sparse (s : SparseSuite.St)
   | bpt (s : BPTSuite.St)
+  | zset (s : ZSetSuite.St)
 
 def freshSuite (name : String) : SuiteSt :=
   match name with
@@ -36,6 +38,7 @@ def freshSuite (name : String) : SuiteSt :=
   | "api-fuzz" => .fuzz
   | "db-sparse" => .sparse {}
   | "bpt-ds" => .bpt {}
+  | "zset-ds" => .zset {}
   | _ => if name.startsWith "db" then .db {} else .none
 
 def stepSuite (s : SuiteSt) (cmd impl : String) : SuiteSt × Verdict :=
@@ -48,6 +51,7 @@ def stepSuite (s : SuiteSt) (cmd impl : String) : SuiteSt × Verdict :=
   | .fuzz => (s, FuzzSuite.step cmd impl)
   | .sparse st => let (st', v) := SparseSuite.step st cmd impl; (.sparse st', v)
   | .bpt st => let (st', v) := BPTSuite.step st cmd impl; (.bpt st', v)
+  | .zset st => let (st', v) := ZSetSuite.step st cmd impl; (.zset st', v)
 
 def renderVerdict (lineno : Nat) (cmd impl : String) (v : Verdict) : String :=
   let m := if v.model == impl then "M" else "m"
